@@ -7,7 +7,7 @@ with tempfile.TemporaryDirectory() as d:
     out = os.path.join(d, "j.xml")
     p = subprocess.run(["/venv/bin/python", "-m", "pytest", "-ra", "-q", "-p", "no:cacheprovider", "--timeout=900",
                         "--continue-on-collection-errors", f"--junitxml={out}"], cwd=repo, capture_output=True, text=True,
-                       env=dict(os.environ, PYTHONDONTWRITEBYTECODE="1"))
+                       env=dict(os.environ, PYTHONDONTWRITEBYTECODE="1", PYTHONPATH=os.path.join(repo, "src")))
     passed = set()
     for tc in ET.parse(out).getroot().iter("testcase"):
         if not any(ch.tag in ("failure", "error", "skipped") for ch in tc):
